@@ -36,6 +36,7 @@ import (
 	"strconv"
 	"strings"
 	"sync"
+	"sync/atomic"
 	"time"
 
 	"github.com/opencontainers/go-digest"
@@ -672,6 +673,113 @@ func (e *xstore) refreshStored() (vanished []int) {
 }
 
 // sweep queries every node and judges the answers.
+// blockWatch queries Predecessors WHILE a concurrent block runs (theorem
+// C07_concurrent_anytime): at every moment every answer must consist of stored-or-being-pushed
+// nodes that do reference the queried node, without duplicates; and it must contain every
+// referencing node that was stored before the block or whose Push had already returned when
+// the query started (unless the block deletes).
+type blockWatch struct {
+	e         *xstore
+	pre       map[int]bool
+	inBlock   map[int]bool
+	done      []atomic.Bool
+	noMissing bool
+	stop      chan struct{}
+	fin       chan struct{}
+	queries   int
+	bad       string
+	badSig    string
+}
+
+func (e *xstore) watchBlock(pushIDs []int, hasDelete bool) *blockWatch {
+	w := &blockWatch{e: e, pre: map[int]bool{}, inBlock: map[int]bool{}, done: make([]atomic.Bool, len(e.u.g.Nodes)),
+		noMissing: hasDelete, stop: make(chan struct{}), fin: make(chan struct{})}
+	for i, ok := range e.stored {
+		if ok {
+			w.pre[i] = true
+		}
+	}
+	for _, i := range pushIDs {
+		w.inBlock[i] = true
+	}
+	st := e.st
+	go func() {
+		defer close(w.fin)
+		g := e.u.g
+		for k := 0; ; k++ {
+			select {
+			case <-w.stop:
+				return
+			default:
+			}
+			n := g.Nodes[k%len(g.Nodes)]
+			var completed []int
+			for i := range w.done {
+				if w.done[i].Load() {
+					completed = append(completed, i)
+				}
+			}
+			ds, err := st.Predecessors(ctx, n.Desc)
+			w.queries++
+			if err != nil || w.bad != "" {
+				continue
+			}
+			_, ids, unk := e.u.showDescs(ds)
+			if unk > 0 {
+				w.bad, w.badSig = fmt.Sprintf("Predecessors(%d) during the block returned %d unknown descriptors", n.ID, unk), "pred-anytime-extra"
+				continue
+			}
+			got := map[int]bool{}
+			for _, p := range ids {
+				refs := false
+				for _, s := range g.Nodes[p].Succ {
+					if s == n.ID {
+						refs = true
+					}
+				}
+				switch {
+				case got[p]:
+					w.bad, w.badSig = fmt.Sprintf("Predecessors(%d) during the block returned %d twice", n.ID, p), "pred-anytime-dup"
+				case !refs || !(w.pre[p] || w.inBlock[p]):
+					w.bad, w.badSig = fmt.Sprintf("Predecessors(%d) during the block returned %d, which does not reference it or was never pushed", n.ID, p), "pred-anytime-extra"
+				}
+				got[p] = true
+			}
+			if w.noMissing {
+				continue
+			}
+			must := func(p int, why string) {
+				for _, s := range g.Nodes[p].Succ {
+					if s == n.ID && !got[p] && w.bad == "" {
+						w.bad, w.badSig = fmt.Sprintf("Predecessors(%d) during the block omitted %d (%s)", n.ID, p, why), "pred-anytime-missing"
+					}
+				}
+			}
+			for p := range w.pre {
+				must(p, "stored before the block")
+			}
+			for _, p := range completed {
+				must(p, "its Push had returned before the query started")
+			}
+		}
+	}()
+	return w
+}
+
+func (w *blockWatch) pushed(i int) { w.done[i].Store(true) }
+
+func (w *blockWatch) finish() {
+	close(w.stop)
+	<-w.fin
+	run.Count("anytime-blocks")
+	if w.queries > 0 {
+		run.Count("anytime-blocks-with-queries")
+	}
+	if w.bad != "" {
+		w.e.fail(w.badSig, w.bad)
+	}
+}
+
 // storeObs: the observation compared with the store-level model after a sweep:
 // the stored set and every Predecessors answer.
 func (e *xstore) storeObs() []string {
@@ -953,6 +1061,14 @@ func (e *xstore) do(op string) {
 		if name != "cpush" {
 			close(start)
 		}
+		var watch *blockWatch
+		if name == "cpush" {
+			var all []int
+			for _, g := range groups {
+				all = append(all, g...)
+			}
+			watch = e.watchBlock(all, false)
+		}
 		for _, g := range groups {
 			wg.Add(1)
 			work := func(g []int) {
@@ -960,6 +1076,9 @@ func (e *xstore) do(op string) {
 				<-start // all goroutines of a concurrent block start together
 				for _, i := range g {
 					err := e.pushOne(i)
+					if watch != nil && (err == nil || errors.Is(err, errdef.ErrAlreadyExists)) && e.kind != "file" {
+						watch.pushed(i)
+					}
 					mu.Lock()
 					errs[i] = err
 					mu.Unlock()
@@ -975,6 +1094,9 @@ func (e *xstore) do(op string) {
 			close(start)
 		}
 		wg.Wait()
+		if watch != nil {
+			watch.finish()
+		}
 		for _, g := range groups {
 			for _, i := range g {
 				err := errs[i]
@@ -1143,6 +1265,16 @@ func (e *xstore) do(op string) {
 		var wg sync.WaitGroup
 		start := make(chan struct{})
 		st := e.ociSt
+		var blockPushes []int
+		blockDeletes := false
+		for _, it := range items {
+			if strings.HasPrefix(it, "x") {
+				blockDeletes = true
+			} else if i, err := strconv.Atoi(it); err == nil && e.valid(i) {
+				blockPushes = append(blockPushes, i)
+			}
+		}
+		watch := e.watchBlock(blockPushes, blockDeletes)
 		for k, it := range items {
 			wg.Add(1)
 			go func(k int, it string) {
@@ -1163,12 +1295,16 @@ func (e *xstore) do(op string) {
 				default:
 					if i, err := strconv.Atoi(it); err == nil && e.valid(i) && !e.u.g.Nodes[i].Foreign() {
 						errs[k] = e.pushOne(i)
+						if errs[k] == nil || errors.Is(errs[k], errdef.ErrAlreadyExists) {
+							watch.pushed(i)
+						}
 					}
 				}
 			}(k, it)
 		}
 		close(start)
 		wg.Wait()
+		watch.finish()
 		for k, it := range items {
 			err := errs[k]
 			switch {
@@ -2591,7 +2727,7 @@ func coverageFloors() []string {
 		"history-with-autogc-cascade": 5, "reopen-dir": 40, "reopen-fs": 15, "reopen-tar": 15,
 		"foreign-roots-only-index": 10, "push-concurrent": 40, "order-parents-first": 40,
 		"order-children-first": 40, "order-shuffled": 40, "query-absent-node-with-preds": 500,
-		"chain-with-sha512-or-sha384": 8, "tag-non-manifest": 5, "delete-absent": 5, "phase2-concurrent-push": 10, "autosave-off": 12, "saveindex": 8,
+		"chain-with-sha512-or-sha384": 8, "anytime-blocks-with-queries": 150, "tag-non-manifest": 5, "delete-absent": 5, "phase2-concurrent-push": 10, "autosave-off": 12, "saveindex": 8,
 		"links-dockermanifest": 40, "links-imagemanifest": 40, "links-dockerlist": 40, "links-imageindex": 40,
 		"links-artifact": 40, "links-other": 40,
 	}
